@@ -477,7 +477,7 @@ func (w *winHandler) Arrive(point string) {
 }
 
 // the windows in which another call can interleave with lock-free parts of Delete / rollover come up more often
-var windowWeights = map[string]int{"delete.found": 6, "delete.checked": 4, "delete.rewritten": 4, "delete.reader.before-swap": 2,
+var windowWeights = map[string]int{"writer.index.searched": 4, "delete.found": 6, "delete.checked": 4, "delete.rewritten": 4, "delete.reader.before-swap": 2,
 	"publish.roll.opened": 2, "publish.roll.swapped": 2}
 
 func pickWindow(id int) string {
@@ -499,7 +499,7 @@ var windowPoints = []string{
 	"writer.record", "writer.item", "writer.before-append",
 	"delete.found", "delete.checked", "delete.rewritten", "delete.reader.before-swap", "writer.delete.validated",
 	"reader.consume.index", "reader.consume.messages", "reader.index.loading", "reader.messages.loading", "reader.gc.index-closed",
-	"reader.index.wlock", "reader.messages.wlock",
+	"reader.index.wlock", "reader.messages.wlock", "writer.index.searched",
 }
 
 // placement: call A is held at pause point W; calls B then C run to completion (or block on A's locks) inside the window.
@@ -527,6 +527,10 @@ func placement(id int, seed int64, root string) (*chist, error) {
 		}
 	case w == "reader.gc.index-closed":
 		a = ccall{Op: "gc"}
+	case w == "writer.index.searched":
+		// a consumer at (or just before) the end of the log, held between its search of the writer's items and its
+		// read of the next offset, while a Publish tries to append
+		a = ccall{Op: "consume", Off: init.Next - int64(rng.Intn(2)*rng.Intn(2)), Max: 3}
 	default:
 		a = ccall{Op: "consume", Off: int64(rng.Intn(int(init.Next) + 1)), Max: 3}
 	}
@@ -551,6 +555,9 @@ func placement(id int, seed int64, root string) (*chist, error) {
 	if reached {
 		for k := 1; k <= 2; k++ {
 			c := randCall(rng, init.Next+2)
+			if k == 1 && w == "writer.index.searched" {
+				c = ccall{Op: "publish", N: 1 + rng.Intn(3)}
+			}
 			if k == 1 && strings.HasPrefix(w, "delete.") && rng.Intn(4) > 0 {
 				c = ccall{Op: "publish", N: 1 + rng.Intn(3)} // a publish (possibly rolling over) inside the delete window
 			}
